@@ -1,6 +1,8 @@
 /-
   Driver of C03.  Requests (all carry "m" and "U" = the matrix compute_unitary() reported, exact):
     {"op":"bs",  "state":[[tags of mode 0],…], "outs":[state,…]}
+        every state of every request is read through `native` (Model/C03Mixed.lean); "bs" also returns the relabelled
+        state, `mixedGroups` and the annotation map
     {"op":"sv",  "terms":[{"coef":[re,im],"state":…},…], "outs":[…]}
     {"op":"svd", "members":[{"w":"1/3","terms":[…]},…], "prec":"1/1000000", "minp":"0"[, "bound":true]}
         with "bound": the exactly computed error bound of Props/C03 section 10 (`errD`, `errTot`, `errNormAt`) and
@@ -15,11 +17,18 @@ import PercevalModel.SimProto
 import PercevalModel.Model.C03
 import PercevalModel.Model.C03Prec
 import PercevalModel.Model.C03Evolve
+import PercevalModel.Model.C03Mixed
 
 open Lean PM PM.Proto PM.Fock PM.Dist PM.SimSpec PM.SimProto PM.C03
 
-def astateOf (j : Json) : Except String AState := do
+/-- a state as the object reports it (tags of the photons mode by mode, photon order, 0 = no annotation) -/
+def astateRaw (j : Json) : Except String AState := do
   (← j.getArr?).toList.mapM natList
+
+/-- … read through the native rule for states mixing annotated and un-annotated photons (`native`, the identity on
+all other states: theorem `native_uniform`) -/
+def astateOf (j : Json) : Except String AState := do
+  pure (native (← astateRaw j))
 
 def firstOcc (l : List ℕ) : List ℕ := l.reverse.dedup.reverse
 
@@ -81,7 +90,8 @@ def handleE (j : Json) : Except String Json := do
     match op with
     | "bs" =>
       let ⟨m, U⟩ ← matOfJson j
-      let st ← astateOf (← j.getObjVal? "state")
+      let rawSt ← astateRaw (← j.getObjVal? "state")
+      let st := native rawSt
       if st.length ≠ m then throw "bad state"
       let outs ← (← arrOf j "outs").toList.mapM astateOf
       let gs := separate st
@@ -92,6 +102,8 @@ def handleE (j : Json) : Except String Json := do
       let pa := outs.map fun o => Json.arr #[gqToJson (probAmpBS U st o),
         toJson (((annotMap st).map fun p => prodFact p.2).prod * ((annotMap o).map fun p => prodFact p.2).prod)]
       return Json.mkObj [("tags", toJson (tagsOf st)), ("groups", toJson gs),
+        ("native", toJson st), ("mixedGroups", toJson (mixedGroups rawSt)), ("annot", toJson (annotMap st)),
+        ("outsNative", toJson outs),
         ("probs", distToJson (probsBS U st)),
         ("conv", distToJson (normalize (probsTagged U gs))),
         ("conv_rev", distToJson (normalize (probsTagged U gs.reverse))),
